@@ -1,6 +1,7 @@
 import I2N.Lemmas.Tools
 import I2N.Lemmas.ToolsChain
 import I2N.Lemmas.ToolsTerm
+import I2N.Extracted.GenManu
 /-!
 # C20 — Manual steps act once per selected vm and worker, in the given order
 
@@ -499,5 +500,95 @@ example :
       mu g (runSched g .star [0, 1] {}) 0 = 12 ∧ mu g (runSched g .star [0, 1, 0] {}) 0 = 9 := by
   refine ⟨namesWF_of_namesOk (by decide), by decide, by decide, by decide, by decide, by decide, by decide, by decide,
     by decide, by decide, by decide, by decide⟩
+
+/-! ## The model's chain loop is the Python source of `Manu.run` (translator tie)
+
+`I2N/Extracted/GenManu.lean` is regenerated on every `./check C20` from the CURRENT source of
+`avocado_i2n/plugins/manu.py` by `harness/pygen_pxcmd.py`: the `for i, setup_step in enumerate(setup_chain)` loop is
+cut out of `Manu.run` (everything in front of it and behind it is pinned: `retcode = 0`, `return retcode`), its body is
+matched structurally (`run_params["count"] = i`; `getattr` outside the `try`; one `try … except Exception as error`),
+and the two bodies that decide about the return code — the `try` body and the handler — are translated by
+`harness/pygen.py` (`genTryBody`, `genExceptBody`).  `genChainStep` / `genChainLoop` / `genManuChain` put them together
+(hand written skeleton, printed in the generated file). -/
+
+section MatchesSource
+open I2N.Extracted.GenManu
+variable {σ : Type}
+
+theorem genTryBody_run (o : Outcome) (s : ChainSt σ) :
+    ((genTryBody o).run).run s = (.ok (), { s with rc := if o.fails then 1 else s.rc }) := by
+  unfold genTryBody
+  cases h : o.fails <;> simp [h] <;> rfl
+
+theorem genExceptBody_run (s : ChainSt σ) :
+    ((genExceptBody (σ := σ)).run).run s = (.ok (), { s with rc := 1 }) := rfl
+
+/-- one iteration of the regenerated loop body, computed -/
+theorem genChainStep_run (known : String → Bool) (f : σ → String → Nat → Outcome × σ) (i : Nat) (st : String)
+    (s : ChainSt σ) :
+    ((genChainStep known f i st).run).run s =
+      if !known st then (.error .attributeError, s)
+      else (.ok (), { rc := if (f s.env st i).1.fails then 1 else s.rc, env := (f s.env st i).2,
+                      executed := s.executed ++ [(st, i)], outcomes := s.outcomes ++ [(f s.env st i).1] }) := by
+  unfold genChainStep
+  cases hk : known st
+  · rfl
+  · simp only [ExceptT.run_mk, StateT.run, Bool.not_true, Bool.false_eq_true, if_false]
+    cases ho : (f s.env st i).1 with
+    | raised => exact genExceptBody_run _
+    | retNone => exact genTryBody_run _ _
+    | ret n => exact genTryBody_run _ _
+
+/-- the result of the regenerated chain as a `ChainResult` -/
+def chainResult (r : Except Err Nat × ChainSt σ) : ChainResult σ :=
+  { ret := r.1, executed := r.2.executed, outcomes := r.2.outcomes, env := r.2.env }
+
+theorem genChainLoop_run (known : String → Bool) (f : σ → String → Nat → Outcome × σ) (chain : List String) :
+    ∀ (i : Nat) (s : ChainSt σ),
+      (((genChainLoop known f i chain).run).run s).1.map (fun _ => (((genChainLoop known f i chain).run).run s).2.rc)
+          = (runChainFrom known f s.env i s.rc chain).ret ∧
+      (((genChainLoop known f i chain).run).run s).2.executed
+          = s.executed ++ (runChainFrom known f s.env i s.rc chain).executed ∧
+      (((genChainLoop known f i chain).run).run s).2.outcomes
+          = s.outcomes ++ (runChainFrom known f s.env i s.rc chain).outcomes ∧
+      (((genChainLoop known f i chain).run).run s).2.env = (runChainFrom known f s.env i s.rc chain).env := by
+  induction chain with
+  | nil => intro i s; exact ⟨rfl, by simp [genChainLoop, runChainFrom]; rfl, by simp [genChainLoop, runChainFrom]; rfl, rfl⟩
+  | cons st rest ih =>
+    intro i s
+    have hstep := genChainStep_run known f i st s
+    have hrun : ((genChainLoop known f i (st :: rest)).run).run s =
+        match ((genChainStep known f i st).run).run s with
+        | (.ok _, s') => ((genChainLoop known f (i + 1) rest).run).run s'
+        | (.error e, s') => (.error e, s') := rfl
+    rw [hrun, hstep]
+    cases hk : known st
+    · simp [runChainFrom, hk, Except.map]
+    · simp only [Bool.not_true, Bool.false_eq_true, if_false, runChainFrom, hk]
+      have := ih (i + 1) ⟨if (f s.env st i).1.fails then 1 else s.rc, (f s.env st i).2,
+        s.executed ++ [(st, i)], s.outcomes ++ [(f s.env st i).1]⟩
+      simp only [List.append_assoc, List.singleton_append] at this
+      exact this
+
+/-- **The hand written `runChain` IS the chain loop of `Manu.run`** -/
+theorem runChain_matches_source (known : String → Bool) (f : σ → String → Nat → Outcome × σ) (env : σ)
+    (chain : List String) :
+    chainResult (genManuChain known f env chain) = runChain known f env chain := by
+  obtain ⟨h1, h2, h3, h4⟩ := genChainLoop_run known f chain 0 ⟨0, env, [], []⟩
+  unfold chainResult genManuChain runChain
+  simp only [List.nil_append] at h2 h3
+  simp only [h1, h2, h3, h4]
+
+/-- the regenerated chain computes: three steps, the second raises — all three are called, in order, with their
+indices, the return code is 1 (the seeded regression `retcode = retcode or …` skipped the third step); an unknown
+step lets AttributeError escape after the steps in front of it ran -/
+example : let f : Nat → String → Nat → Outcome × Nat := fun e st _ => (if st == "b" then .raised else .ret 0, e + 1)
+    let r := genManuChain (fun _ => true) f 0 ["a", "b", "a"]
+    r.1.toOption = some 1 ∧ r.2.executed = [("a", 0), ("b", 1), ("a", 2)] ∧ r.2.env = 3 := by decide
+example : let f : Nat → String → Nat → Outcome × Nat := fun e _ _ => (.retNone, e + 1)
+    let r := genManuChain (fun st => st != "x") f 0 ["a", "x", "a"]
+    r.1.toOption = none ∧ r.2.executed = [("a", 0)] ∧ r.2.env = 1 := by decide
+
+end MatchesSource
 
 end I2N.Props.C20
